@@ -7,6 +7,7 @@ import DswModel.Model.Capacity
 import DswModel.Model.Shuffle
 import DswModel.Py.Wire
 import DswModel.Gen.Operation
+import DswModel.Gen.Graphized
 import DswModel.Gen.Spiderweb
 /-!
 Line-protocol driver: one operation per input line, one canonical result line per operation.
@@ -26,7 +27,8 @@ def stepGen (name : String) (args : List String) : String :=
   | none => "bad-arg"
   | some vs =>
     match (Dsw.Gen.dispatch_operation genFuel name vs).orElse
-        (fun _ => Dsw.Gen.dispatch_spiderweb genFuel name vs) with
+        (fun _ => (Dsw.Gen.dispatch_spiderweb genFuel name vs).orElse
+          (fun _ => Dsw.Gen.dispatch_graphized genFuel name vs)) with
     | none => "bad-op"
     | some (.ok v) => "ok " ++ Dsw.Py.showPV v
     | some (.error e) => "err " ++ (match e with
